@@ -567,7 +567,11 @@ class C15(Prop):
           'without initial size, Deduping over Evolution, and the real regularized_evolution / hill_climb / '
           'nsga2 (+ Deduping over them; oracle only)}; spaces of 3-24 points; runs of 0-40 (thorough: 60) events '
           'produced like a tuning backend with 1-5 parallel workers (feedback in proposal order or shuffled, '
-          'last proposals in flight); EVERY crash point k in 0..N is checked inside a case. Non-trivial: some '
+          'last proposals in flight); the persisted history is handed to recover() as a list / tuple / one-shot '
+          'iterator / generator, in 1-3 consecutive recover() calls (cut at random percentages); Evolution updates '
+          'also include two operations that are NOT equivalent to one batch application (duel, step); real '
+          'algorithms include NEAT, and their global state (elites, elite_cursor, living_species) is observed; '
+          'EVERY crash point k in 0..N is checked inside a case. Non-trivial: some '
           'crash point has a proposal in flight and some has a reward; distinct by (algo, space, events).')
   trusted_base = [
       'random.Random bit streams (the oracle stream fed to the model is recorded from the real PRNG)',
